@@ -48,11 +48,13 @@ def c04(cx):
              '(hidden WS emitted at a mark covers only whitespace), R-ORPHAN (every consumed character belongs to '
              'a token of its step), R-ADVANCE-EVIDENCE, R-KEYWORD-FLOW (a token typed by a keyword-table entry spans '
              'exactly the looked-up text: the key is the whole scanned identifier, the token ends where it ends, '
-             'and the length shortcut never skips a key length). Decides these per-type shape clauses, not the '
+             'and the length shortcut never skips a key length), R-STOP-SET (a whitespace token ends only in front of '
+             'a non-whitespace character), R-REPLAY-AGREE (a loop that re-walks a stretch validated by a look-ahead '
+             'loop stops where the look-ahead stopped). Decides these per-type shape clauses, not the '
              "keyword tables' content.")
 def c06(cx):
     lea_glue.apply(cx, ["R-CHANNEL", "R-ADVANCE-EVIDENCE", "R-MARK-WS", "R-DELIM-SHAPE", "R-NONEMPTY", "R-SPELL", "R-ORPHAN",
-                        "R-KEYWORD-FLOW"])
+                        "R-KEYWORD-FLOW", "R-REPLAY-AGREE", "R-STOP-SET"])
 
 
 @prop("C09", 'LEA: R-CKPT (checkpoint typestate on every path and through every live-checkpoint region: no '
@@ -60,9 +62,11 @@ def c06(cx):
              'R-SPEC-PURITY (no error is recorded while a checkpoint is live: the error list is not rolled back), '
              "R-ERR-PAIR (each 'missing expected' error is immediately followed by its zero-width token at the "
              'same offset, and conversely), R-ERR-ORDER / R-OFFSET-PROVENANCE (error offsets are cursor snapshots, '
-             'non-decreasing along a step).')
+             'non-decreasing along a step); structural R-ERRORS-APPEND-ONLY (the diagnostics list is only pushed '
+             'to: nothing removes, reorders or replaces a recorded error).')
 def c09(cx):
     lea_glue.apply(cx, ["R-CKPT", "R-ERR-PAIR", "R-SPEC-PURITY", "R-ERR-ORDER", "R-OFFSET-PROVENANCE"])
+    rules_struct.r_errors_append_only(cx, cx.facts("dev-none-stable"))
 
 
 @prop("C07", 'LEA rules R-SECTION (the first literal section of a token is anchored at the token start or right '
@@ -116,10 +120,12 @@ def c13(cx):
              'offset, incl. finalize_lexing), R-FINALIZE-ONCE (every pending mode is closed exactly once at end of '
              'input), R-EXPECT-SURVIVES (no rollback truncation discards a pending expectation mode) and R-WS-ORDER for '
              'the two expectation modes (they are entered behind the whitespace skipper, so the diagnostic and the '
-             'recovery token sit after insignificant blanks, where the delimiter was expected).')
+             'recovery token sit after insignificant blanks, where the delimiter was expected); structural '
+             'R-ERRORS-APPEND-ONLY (a recorded diagnostic is never taken back).')
 def c14(cx):
     lea_glue.apply(cx, ["R-EXPECT-TABLE", "R-ERR-PAIR", "R-EXPECT-SURVIVES", "R-FINALIZE-ONCE", "R-WS-ORDER"],
                    only={"R-WS-ORDER": lambda k: k.startswith(("ExpectSymbol<-", "ExpectSemiOrEOF<-"))})
+    rules_struct.r_errors_append_only(cx, cx.facts("dev-none-stable"))
 
 
 @prop("C03", 'structural rules R-CURSOR-COUNT (every chars.next() of Cursor::advance/advance_by is matched by +1 '
@@ -170,13 +176,14 @@ def c12(cx):
 @prop("C17", 'R-BOM-ORDER (the BOM constant is only looked at in Lexer::new, where it is eaten once before the '
              'first offsets are snapshotted and the first line is added with those post-BOM offsets), R-UNITS, '
              'R-NO-ABSOLUTE (no control flow on history lengths or on a source position compared with a constant: '
-             "the BOM shifts every offset) and LEA R-DATALINES-START (the one look-behind that asks 'is this the "
-             "start' does not distinguish position 0).")
+             "the BOM shifts every offset), R-BOM-VIEWS (outside Lexer::new the source text is only viewed from an "
+             "explicit start offset, never from its beginning, where the skipped mark sits) and LEA "
+             "R-DATALINES-START (the one look-behind that asks 'is this the start' does not distinguish position 0).")
 def c17(cx):
     fx = cx.facts("dev-none-stable")
     rules_struct.r_units(cx, ["dev-none-stable"])
     rules_cfg.r_no_absolute(cx)
-    rules_struct.r_bom_const(cx, fx)
+    rules_struct.r_bom_const(cx, fx, source_views=True)
     lea_glue.apply(cx, ["R-DATALINES-START", "R-BOM-ORDER"])
 
 
@@ -198,12 +205,13 @@ def c05(cx):
              "when the previous DEFAULT-channel token is absent or ';'), R-DELIM-SHAPE (comments consume disjoint "
              'opener and closer), R-SPELL, R-NONEMPTY, R-KEYWORD-FLOW (every keyword of the table is looked up for '
              'the whole identifier), R-STOP-SET (the text scanner of a double-quoted literal ends its token only in '
-             'front of the closing quote, end of input or a macro trigger as the property defines it). Decides the '
+             'front of the closing quote, end of input or a macro trigger as the property defines it; a whitespace '
+             'token only in front of a non-whitespace character), R-REPLAY-AGREE. Decides the '
              'statement-context flag and token-shape clauses, '
              'not equivalence with a reference lexer.')
 def c11(cx):
     lea_glue.apply(cx, ["R-PENDING", "R-DELIM-SHAPE", "R-NONEMPTY", "R-SPELL", "R-DATALINES-START", "R-ADVANCE-EVIDENCE",
-                        "R-KEYWORD-FLOW", "R-STOP-SET"])
+                        "R-KEYWORD-FLOW", "R-STOP-SET", "R-REPLAY-AGREE"])
 
 
 @prop("C15", 'R-STATE-INVENTORY (no state outside the lexer object), R-NO-ABSOLUTE (no control flow on history '
